@@ -59,7 +59,11 @@ def byt(text):
     """a bytes value (only returned by dtml-return, never inserted): its identity is its repr"""
     return {'k': 'plain', 'id': repr(text.encode('utf-8')), 't': True, 'bytes': text}
 def num(n): return {'k': 'plain', 'id': str(n), 't': n != 0, 'num': n, 'o': n}
-def fn(id, r, beh='ok'): return {'k': 'fn', 'id': id, 'r': r, 'beh': beh}
+def fn(id, r, beh='ok', sets=None):
+    d = {'k': 'fn', 'id': id, 'r': r, 'beh': beh}
+    if sets is not None:       # a method of a client object that, when it runs, gives its object the attribute sets[0] = sets[1]
+        d['sets'] = {'n': sets[0], 'v': sets[1]}
+    return d
 def tmpl(id, prog, gl=None): return {'k': 'tmpl', 'id': id, 'prog': prog, 'gl': gl or {}}
 def obj(id, **a): return {'k': 'obj', 'id': id, 'a': a}
 def mp(id, **a): return {'k': 'map', 'id': id, 'a': a}
@@ -320,6 +324,9 @@ class Obj:
 
 
 class Fn:
+    owner = None
+    sets = None
+
     def __init__(self, vid, r, beh):
         self.vid, self.r, self.beh = vid, r, beh
 
@@ -329,6 +336,8 @@ class Fn:
         RUN.calls.append(self.vid)
         beh = RUN.plan.get(RUN.ninv, self.beh)
         if beh == 'ok':
+            if self.sets is not None and self.owner is not None:
+                setattr(self.owner, self.sets[0], self.sets[1])
             return self.r
         if beh == 'dtreturn':
             raise DTReturn('RV')
@@ -356,14 +365,21 @@ def conc(v, sty='dtml'):
         f.vid = v['id']
         return f
     if k == 'fn':
-        return Fn(v['id'], conc(v['r'], sty), v.get('beh', 'ok'))
+        f = Fn(v['id'], conc(v['r'], sty), v.get('beh', 'ok'))
+        if v.get('sets'):
+            f.sets = (v['sets']['n'], conc(v['sets']['v'], sty))
+        return f
     if k == 'tmpl':
         from DocumentTemplate.DT_HTML import HTML
         t = HTML(pr(v['prog'], sty), __name__=v['id'], **{a: conc(x, sty) for a, x in v['gl'].items()})
         t.vid = v['id']
         return t
     if k == 'obj':
-        return Obj(v['id'], {a: conc(x, sty) for a, x in v['a'].items()})
+        o = Obj(v['id'], {a: conc(x, sty) for a, x in v['a'].items()})
+        for x in list(o.__dict__.values()):
+            if isinstance(x, Fn) and x.sets is not None:
+                x.owner = o
+        return o
     if k == 'exccls':
         return EXC[v['id']]
     if k == 'cmap':
